@@ -548,6 +548,31 @@ def rule_short(ctx):
     ctx.require(n >= 20, 'C01.short', f'only {n} shortcut returns extracted')
 
 
+def rule_transfer(ctx):
+    ctx.rule('C01.opt', 'a rewrite hands the whole reader set of the replaced unit (`x._descendants = self._descendants`) only to a unit it has '
+                        'just made: an existing unit already has readers of its own, which the assignment would forget - later passes then '
+                        'take it for single-use or dead and remove it under its remaining readers')
+    n = 0
+    for fi in sorted(ctx.repo.functions.values(), key=lambda f: f.fq):
+        if not (fi.module.name == 'sc3.synth.ugen' or fi.module.name.startswith('sc3.synth.ugens')):
+            continue
+        for x in walk_local(fi.node):
+            if not (isinstance(x, ast.Assign) and len(x.targets) == 1 and isinstance(x.targets[0], ast.Attribute)
+                    and x.targets[0].attr == '_descendants' and isinstance(x.value, ast.Attribute) and x.value.attr == '_descendants'):
+                continue
+            n += 1
+            tgt = x.targets[0].value
+            binds = [a.value for a in walk_local(fi.node) if isinstance(a, ast.Assign) and isinstance(tgt, ast.Name)
+                     and any(isinstance(t, ast.Name) and t.id == tgt.id for t in a.targets)]
+            fresh = isinstance(tgt, ast.Name) and tgt.id not in fi.params and bool(binds) and all(
+                isinstance(b, ast.Call) and isinstance(b.func, ast.Attribute) and b.func.attr in ('new', '_new1', '_multi_new', 'ar', 'kr', 'ir')
+                for b in binds)
+            ctx.ob('C01.opt', f'{fi.fq}:{norm(x)[:60]}:onto-a-new-unit', fresh,
+                   f'`{norm(tgt)}` receives the whole reader set of another unit but is not (only) bound to a unit constructed in this function '
+                   f'({[norm(b)[:40] for b in binds]}): the readers it already had are forgotten', x, fi.module)
+    ctx.require(n >= 10, 'C01.opt', f'only {n} reader-set transfers found in the rewrite passes')
+
+
 # -------------------------------------------------------------------- opt
 def rule_opt(ctx):
     ctx.rule('C01.opt', 'each optimiser rewrite replaces self by a unit denoting the same polynomial, removes only '
@@ -1004,11 +1029,15 @@ def run(ctx):
     rule_ctor_args(ctx)
     rule_short(ctx)
     rule_opt(ctx)
+    rule_transfer(ctx)
     rule_dce(ctx)
     ctx.assume('operator.X.__name__ == X and the scbuiltin decorators keep the kernel __name__ (checked in C15.wrap)')
 
 
 MUTANTS = [
+    dict(rule='C01.opt', name='double negation removed, the operand inherits the reader set and forgets its own readers (seed C01-i)', file='sc3/synth/ugen.py',
+         old="    def _optimize_graph(self):  # override\n        self._perform_dead_code_elimination()\n\n\nclass BinaryOpUGen(BasicOpUGen):",
+         new="    def _optimize_graph(self):  # override\n        if self._perform_dead_code_elimination():\n            return\n        a = self.inputs[0]\n        if self.operator == 'neg' and isinstance(a, UnaryOpUGen) and a.operator == 'neg' and len(a._descendants) == 1:\n            replacement = a.inputs[0]\n            for ugen in self._descendants:\n                ugen._inputs = tuple(replacement if i is self else i for i in ugen.inputs)\n            self._synthdef._remove_ugen(a)\n            self._synthdef._remove_ugen(self)\n            if isinstance(replacement, OutputProxy):\n                replacement = replacement.source_ugen\n            replacement._descendants = self._descendants\n\n\nclass BinaryOpUGen(BasicOpUGen):"),
     dict(rule='C01.opt', name='the replacement becomes a reader only where self was one (seed C01-h)', file='sc3/synth/ugen.py',
          old="                input._descendants.add(replacement)\n                input._descendants.discard(self)\n",
          new="                if self in input._descendants:\n                    input._descendants.discard(self)\n                    input._descendants.add(replacement)\n"),
